@@ -161,6 +161,10 @@ PROPS["C14"] = {
     "level_note": "partial: `isolated server never increases its term` needs the candidate loop (preElectSelf tally) in the model; the handler half is proved.",
 }
 
+PROPS["C07"]["engines"] += [universe("C07", 6000, 100000), cluster("C07")]
+PROPS["C07"]["assumptions"] += [SV_NOTE, H3_NOTE]
+PROPS["C14"]["engines"].append(cluster("C14"))
+PROPS["C14"]["assumptions"].append(H3_NOTE)
 PROPS["C05"]["engines"].append(cluster("C05"))
 PROPS["C05"]["engines"].append(universe("C05"))
 for _p in ["C01", "C02", "C03", "C04"]:
